@@ -72,7 +72,33 @@ def check(R):
         s1 = {x[1] for x in prims.sources(sr, sh[0].d['a'][1]) if x[0] == 'constp'}
         s2 = {x[1] for x in prims.sources(er, exn[0].d['a'][1]) if x[0] == 'constp'}
         k2 = exn[0].d['a'][1].get('k', {})
-        R.expect('P6', RD, 'the space reserved at start is exactly the space released for the trailer', s1 == s2 == {res} and k2.get('p') == res and k2.get('v') == Rv, f'shrink({res.split("::")[-1]}) / expand(same) = {Rv}', f'shrink {s1} vs expand {s2}')
+        fld = 'reserved:' + RD
+        via_field = any(f == fld for f in src_fields(prims.sources(er, exn[0].d['a'][1])))
+        if via_field:
+            # the reserve is tracked in a field: start_reply sets it to the very constant it shrinks by, pieces are released early only by a
+            # function that expands by exactly what it subtracts (and never more than is left), end_reply releases the rest
+            ws = {F.owner_fn(b_.fn): b_ for b_ in F.bodies.values() if b_.focus and list(b_.field_writes(fld))}
+            R.confine('P1', 'writers of ReportDataResponder.reserved', set(ws), {RD + '::start_reply', RD + '::end_reply', RD + '::unreserve', RD + '::new'})
+            w0 = [st for i, j, st in sr.field_writes(fld)]
+            okset = bool(w0) and all({x[1] for x in prims.sources(sr, st[1]['a'][0]) if x[0] == 'constp'} == {res} for st in w0)
+            un = F.bodies.get(RD + '::unreserve')
+            okun = True
+            if un is not None:
+                ex_u = un.calls(WB + '::expand')
+                subs = [st for i, j, st in un.stmts() if st[1].get('op') == 'bin' and st[1].get('b') in ('Sub', 'SubWithOverflow') and any(f == fld for f in src_fields(prims.sources(un, st[1]['a'][0])))]
+                same = bool(ex_u) and bool(subs) and all(('arg', 3) in prims.sources(un, t.d['a'][1]) for t in ex_u) and all(('arg', 3) in prims.sources(un, st[1]['a'][1]) for st in subs)
+                guard = set()
+                for bb, te, fe in prims.cmp_guard_edges(un, 'Gt', lambda s_: ('arg', 3) in s_, lambda s_: any(f == fld for f in src_fields(s_)), symmetric=False):
+                    guard |= fe
+                for bb, te, fe in prims.cmp_guard_edges(un, 'Le', lambda s_: ('arg', 3) in s_, lambda s_: any(f == fld for f in src_fields(s_)), symmetric=False):
+                    guard |= te
+                cut_ok = bool(guard) and all(t.bb not in prims.reach(un, (0,), cut_edges=guard) for t in ex_u)
+                okun = same and cut_ok
+            R.expect('P6', RD, 'the space reserved at start is exactly the space released for the trailer', okset and okun,
+                     f'reserved <- {res.split("::")[-1]} = {Rv} in start_reply; released piecewise (expand(len), reserved -= len, len <= reserved) and the rest in end_reply',
+                     f'start_reply sets the field from the shrink constant: {okset}; unreserve expands exactly what it subtracts, within what is left: {okun}')
+        else:
+            R.expect('P6', RD, 'the space reserved at start is exactly the space released for the trailer', s1 == s2 == {res} and k2.get('p') == res and k2.get('v') == Rv, f'shrink({res.split("::")[-1]}) / expand(same) = {Rv}', f'shrink {s1} vs expand {s2}')
         R.expect('P3', er.fn, 'expand precedes every trailer write', not prims.precedes(er, [exn[0].bb], [t.bb for t in er.calls() if t.d.get('f', '').startswith('tlv::write::TLVWrite::')]), 'ok', 'a write before expand')
 
         def cost(bb):
@@ -87,7 +113,29 @@ def check(R):
                 return COST[m]
             return 0
         mx = _max_path_cost(er, cost)
-        R.expect('P6', er.fn, f'maximum trailer size over all paths ({mx} bytes) fits the reserve ({Rv} bytes)', 0 < mx <= Rv, f'{mx} <= {Rv}', f'the trailer can need {mx} bytes but only {Rv} are reserved')
+        # pieces of the reserve released before end_reply (constant arguments of unreserve): each site at most once per message
+        early = 0
+        if via_field:
+            for b_ in F.bodies.values():
+                if b_.focus and RD + '::unreserve' in b_.calls_summary:
+                    for t in b_.calls(RD + '::unreserve'):
+                        v = t.d['a'][2].get('k', {}).get('v')
+                        if v is None:
+                            raise AnchorLost(f'{b_.fn}: unreserve() with a non-constant length')
+                        early += v
+        R.expect('P6', er.fn, f'maximum trailer size over all paths ({mx} bytes, plus {early} released early for array framing) fits the reserve ({Rv} bytes)', 0 < mx and mx + early <= Rv,
+                 f'{mx} + {early} <= {Rv}', f'the trailer can need {mx} bytes and {early} are released early, but only {Rv} are reserved')
+        # "a read whose last element exactly fills the message is still answered": the TLVs that close a reports array (and open the events
+        # array) on the final path are written into released reserve, not into whatever the elements left over
+        for fn_, what in ((RD + '::report_attributes', 'AttributeReports'), (RD + '::report_events', 'EventReports')):
+            cb_ = async_body(R, fn_)
+            frames = [t for t in cb_.calls('tlv::write::TLVWrite::end_container')] + [t for t in cb_.calls('tlv::write::TLVWrite::start_array') if F.variant_discr(TAGS, 'EventReports') in _tag_value(F, cb_, t.d['a'][1])]
+            R.floor(f'array framing writes in {fn_.split("::")[-1]}', len(frames), 1)
+            rel = [t.bb for t in cb_.calls(RD + '::unreserve', WB + '::expand')]
+            bare = [cb_.where(t.bb) for t in frames if not rel or t.bb in prims.reach(cb_, (0,), cut_blocks=set(rel))] if True else []
+            R.expect('P3', cb_.fn, f'the {what} array framing is written into released reserve', not bare, f'{len(frames)} framing write(s), each preceded by a release of the reserve',
+                     f'framing write(s) at {bare[:3]} with nothing of the reserve released: when the last element ends exactly at the limit the write fails with NoSpace, the responder gives up and the '
+                     'requester gets no answer at all')
         for t in er.calls():
             f = t.d.get('f', '')
             if f.startswith('tlv::write::TLVWrite::') and f.split('::')[-1] in ('bool', 'u8'):
